@@ -34,7 +34,7 @@ fn case_json(alpha: &str, cfg: &str, text: &[u8]) -> Value {
 }
 
 /// Check one (cfg, text); returns a description of the first discrepancy.
-fn check_one<A: Alphabet>(cfg: ECfg, text: &[u8]) -> Result<(), (String, String)> {
+pub fn check_one<A: Alphabet>(cfg: ECfg, text: &[u8]) -> Result<(), (String, String)> {
     let want = expected(letters::<A>(), text);
     let got: EncodeOut = match catch(|| cfgs::encode_all::<A>(cfg, text)) {
         Ok(g) => g,
@@ -81,7 +81,7 @@ fn check_one<A: Alphabet>(cfg: ECfg, text: &[u8]) -> Result<(), (String, String)
 }
 
 /// The convenience API on EncodedSequence (dispatching): encode + from_str, under a forced arm.
-fn check_api<A: Alphabet>(arm: lightmotif::verif::Forced, text: &[u8]) -> Result<(), (String, String)> {
+pub fn check_api<A: Alphabet>(arm: lightmotif::verif::Forced, text: &[u8]) -> Result<(), (String, String)> {
     let want = expected(letters::<A>(), text);
     let got = catch(|| {
         cfgs::with_arm(arm, || {
